@@ -296,7 +296,7 @@ def build(src):
                 return self.t, 1
         u.add(F("parser_" + fn, PAR, r"void parser::%s\(\)" % fn, "void parser_%s(struct oparser *self)" % fn, ["C03", "C04", "C14"] + (["C01", "C02"] if fn == "validate_options" else []), pre=[Body(text)], unwind=K + 1))
     cons = splice(r"void parser::check_parser_consistency\(\)",
-                  r"^std::set<std::string> short_names; for_each_option\(\[&short_names\]\(auto& arg\) \{ if \(arg\.has_short_name\(\)\) \{ auto res = short_names\.emplace\(arg\.short_name\(\)\); if \(!res\.second\) \{ raise<parser_error>\(.*\); \} \} \}\);$",
+                  r"^std::set<std::string> short_names; for_each_option\(\[&short_names\]\(auto& arg\) \{ if \(arg\.has_short_name\(\)\) \{ (?:auto \w+ = short_names\.emplace\(arg\.short_name\(\)\); if \(!\w+\.second\)|const bool \w+ = short_names\.emplace\(arg\.short_name\(\)\)\.second; if \(!\w+\)) \{ raise<parser_error>\(.*\); \} \} \}\);$",
                   lambda mm, arr, kind: "if (base_has_short_name(&self->%s[k_].b)) { nbool inserted = oletters_emplace(&short_names, base_short_name(&self->%s[k_].b)); if (!inserted) { NITRO_THROW(EXC_PARSER_ERROR); } }" % (arr, arr))
 
     class ConsBody:
@@ -438,6 +438,20 @@ def build(src):
 """))
     u.stubs += ["parser_parse"]
     u.static_facts.append("parse(argc, argv): `const char*` argv words are std::string(argv[i]) (the text up to the terminating NUL); the vector is bounded by NITRO_NARGS words in the verification of this function")
+    class LocalName:
+        """the name of a local carries no meaning: the local introduced by `decl_re` (group 1) is renamed to the name the rules and contracts use"""
+        name = "D3.local-name"
+
+        def __init__(self, decl_re, canonical):
+            self.decl_re, self.canonical = decl_re, canonical
+
+        def apply(self, text):
+            m = re.search(self.decl_re, text)
+            if not m or m.group(1) == self.canonical:
+                return text, 1 if m else 0
+            if re.search(r"\b%s\b" % self.canonical, text):
+                raise ExtractionError("cannot rename the local %s to %s: the name is taken" % (m.group(1), self.canonical))
+            return re.sub(r"\b%s\b" % re.escape(m.group(1)), self.canonical, text), 1
     # ------------------------------------------------------------------ layer 4: declarations (C13)
     BASEH = "include/nitro/options/option/base.hpp"
     GRP = "src/options/group.cpp"
@@ -470,11 +484,12 @@ def build(src):
     for fn, member in [("option", "options_"), ("multi_option", "multi_options_"), ("toggle", "toggles_")]:
         u.add(F("group_" + fn, GRP, r"options::%s& group::%s\(const std::string& name,\s*const std::string& description\)" % (fn, fn),
                 "struct obase *group_%s(struct ogroup *self, const struct ostr *name, const struct ostr *description)" % fn, ["C13", "C15"], dflt="0",
+                pre=[LocalName(r"(?:auto|__auto_type) (\w+) = %s\.emplace\(" % member, "res")],
                 rules=[Rule("D6.parser-ref", r"\bparser_\.has_option_with_name\(name\)", "parser_has_option_with_name(self->parser_, name)"),
                        Rule("D7.map-count", r"\b%s\.count\(name\)" % member, "omapk_count(&self->%s, name)" % member),
                        Rule("D7.map-emplace", r"(?:auto|__auto_type) res = %s\.emplace\(std::piecewise_construct, std::forward_as_tuple\(name\),\s*std::forward_as_tuple\(name, description\)\);" % member,
                             "struct oemplaced res = omapk_emplace(&self->%s, name, description);" % member),
-                       Rule("D7.vector-push", r"\border_\.push_back\(&\(res\.first->second\)\);", "oorder_push_back(&self->order_, res.first);"),
+                       Rule("D7.vector-push", r"\border_\.push_back\(&\(?res\.first->second\)?\);", "oorder_push_back(&self->order_, res.first);"),
                        Rule("D3.map-return", r"return res\.first->second;", "return res.first;")],
                 must_fire=["D6.parser-ref", "D7.map-count", "D7.map-emplace", "D7.vector-push", "D3.map-return"], no_replace=["omapk_count"],
                 harness="""void h_group_%s(void)
